@@ -229,10 +229,16 @@ func (r *Run) Finish() {
 	for _, c := range r.violOrder {
 		viols = append(viols, r.viol[c])
 	}
+	dkeys := make([]string, 0, len(r.distinct))
+	for k := range r.distinct {
+		dkeys = append(dkeys, HashKey(k))
+	}
+	sort.Strings(dkeys)
 	res := map[string]any{
 		"property_id":    r.ID,
 		"violations":     viols,
 		"harness_errors": r.harnessErrs,
+		"distinct_keys":  dkeys,
 		"done":           true,
 	}
 	rb, _ := json.MarshalIndent(res, "", " ")
